@@ -1028,6 +1028,18 @@ func (v *Verifier) VerifyFunc(cs *ContractSet, spec *FuncSpec) (res *FuncResult)
 				panic(rec)
 			}
 		}
+		// vacuity guard: a label that no path ever reaches (the named call is inlined, renamed or gone) would make
+		// every at(L, e) silently read the current state
+		if res.Err == "" && len(res.Unsupported) == 0 {
+			for _, c := range spec.Clauses {
+				if c.Kind != "at" {
+					continue
+				}
+				if f := strings.Fields(c.Text); len(f) > 0 && !r.labels[f[0]] {
+					res.Unsupported = append(res.Unsupported, "label "+f[0]+" ("+c.Text+") is reached on no path: clauses that mention it would be vacuous")
+				}
+			}
+		}
 		res.Obligs = r.obligs
 		res.Paths = r.paths + 1
 		res.RetPaths = r.retPaths
@@ -1153,6 +1165,10 @@ func (v *Verifier) VerifyFunc(cs *ContractSet, spec *FuncSpec) (res *FuncResult)
 				last.Env = penv
 				last.Spec = spec
 				last.Group = fmt.Sprintf("%s#ret%d", fname, r.retPaths)
+			}
+			for _, c := range spec.ClausesOf("calls") {
+				called := st2.calls[c.Text] > 0
+				r.oblige(st2, fmt.Sprintf("calls%d(%s)", c.Ord, c.Text), c.Props, fmt.Sprintf("return in block %d (%s)", fr.retBlock.Index, fr.retBlock.Comment), Implies(penv.evalBool(c.Expr), BoolLit(called)))
 			}
 			r.frameObligations(st2, fr, spec)
 		}
